@@ -129,6 +129,8 @@ def run(tier):
     rule_R7(res, prog)
     rule_R8(res, prog)
     rule_R9(res, prog)
+    rule_R10(res, prog)
+    rule_R11(res, prog)
     return res.finish()
 
 
@@ -759,3 +761,162 @@ def rule_R9(res, prog):
                          file=fn.relfile, line=esc[-1][1])
         res.instance(rid, "matrixSslDecodeTls13:%s inner type read -> no success return without a legal type" % ln, esc is None, finding=f_)
     res.floor(rid, 1)
+
+
+def rule_R10(res, prog):
+    """'after a fatal error a session stays dead' has one deliberate soft spot: the alert no_renegotiation is written as a
+    WARNING (writeAlert downgrades exactly that description and clears ssl->err), the session is not flagged and goes on.
+    That is right for refusing a renegotiation on an ESTABLISHED connection only.  Every store of no_renegotiation to
+    ssl->err in the decoders therefore happens under the fact hsState == DONE: raised in the middle of a handshake it
+    would answer a protocol violation (a second ClientHello) with a warning and let the handshake continue."""
+    from sa import cfgutil as cu
+    rid = "C15.R10"
+    res.rule(rid, "the only alert that is downgraded to a warning (no_renegotiation) is raised only on an established connection")
+    NR = prog.const("SSL_ALERT_NO_RENEGOTIATION")
+    DONE = prog.const("SSL_HS_DONE")
+    n = 0
+    for fn in sorted(prog.functions.values(), key=lambda f: f.qname):
+        if not fn.blocks or not fn.relfile.startswith("matrixssl/") or "/test/" in fn.relfile:
+            continue
+        gf = None
+        for b in fn.blocks:
+            for i, ln, x in cu.block_exprs(b):
+                for m in walk(x):
+                    if m.get("k") == "bin" and m["op"] == "=" and cu.ftext(strip(m["l"]) or {}) == "ssl->err" and \
+                            (strip(m["r"]) or {}).get("k") == "int" and strip(m["r"])["v"] == NR:
+                        n += 1
+                        gf = gf or cu.guard_facts(fn)
+                        fs = gf.get(b["id"], ())
+                        ok = any((txt == "(ssl->hsState == %d)" % DONE and tr) or (txt == "(ssl->hsState != %d)" % DONE and not tr) for (txt, tr) in fs)
+                        f_ = None
+                        if not ok:
+                            f_ = Finding(PROP, rid, fn.name, "no_renegotiation raised outside an established connection",
+                                         "%s:%s %s(): ssl->err = no_renegotiation without the fact hsState == DONE: the alert writer sends this "
+                                         "description as a WARNING and clears the error, so a ClientHello arriving in the middle of a handshake is "
+                                         "answered with a warning, the session is not flagged and the handshake (and application data) goes on" % (
+                                             fn.relfile, ln, fn.name), file=fn.relfile, line=ln)
+                        res.instance(rid, "%s:%s no_renegotiation under hsState == DONE" % (fn.name, ln), ok, finding=f_)
+    # the downgrade itself is specific to that description
+    lst = prog.by_name.get("writeAlert")
+    if lst:
+        fn = lst[0]
+        gf = cu.guard_facts(fn)
+        WARN = prog.const("SSL_ALERT_LEVEL_WARNING")
+        for b in fn.blocks:
+            for i, ln, x in cu.block_exprs(b):
+                for m in walk(x):
+                    if m.get("k") == "bin" and m["op"] == "=" and (strip(m["r"]) or {}).get("k") == "int" and strip(m["r"])["v"] == WARN and \
+                            "level" in cu.ftext(strip(m["l"]) or {}).lower():
+                        n += 1
+                        ok = any(("== %d)" % NR) in txt and tr for (txt, tr) in gf.get(b["id"], ()))
+                        f_ = None
+                        if not ok:
+                            f_ = Finding(PROP, rid, fn.name, "alert downgraded to a warning for more than no_renegotiation",
+                                         "%s:%s writeAlert(): the level is set to warning without the fact description == no_renegotiation" % (
+                                             fn.relfile, ln), file=fn.relfile, line=ln)
+                        res.instance(rid, "writeAlert:%s warning level only for no_renegotiation" % ln, ok, finding=f_)
+    res.floor(rid, 2)
+
+
+def rule_R11(res, prog):
+    """'no error path reports success' inside the TLS 1.3 decoder and the receive entry point:
+    (a) in matrixSslDecodeTls13 the response encoder (sslEncodeResponse: `send the next flight`) is not reached from a
+        negative result of tls13ParseHandshakeMessage without the test that separates the decoder's own signals (<= SSL_FULL)
+        from parser failure codes - a parser exit that forgot to choose an alert would otherwise be taken for `handshake
+        response` (a truncated ServerHello was swallowed and the handshake went on);
+    (b) a change_cipher_spec record is parsed-and-ignored only under the fact hsState != DONE;
+    (c) in matrixSslReceivedData every `return PS_PROTOCOL_FAIL` behind the decoder call is preceded by ssl->flags |=
+        SSL_FLAGS_ERROR on every path (the session that gives up must be dead);
+    (d) the size tls13EncodeAlert asks for when the alert does not fit accounts for the configured record padding - a
+        figure that is too small makes the caller give up and the fatal alert is never sent."""
+    from sa import cfgutil as cu
+    rid = "C15.R11"
+    res.rule(rid, "TLS 1.3: parser failures without an alert, CCS after the handshake, give-up exits of ReceivedData and the padded alert's size")
+    n = 0
+    lst = prog.by_name.get("matrixSslDecodeTls13")
+    FULL = prog.const("SSL_FULL")
+    DONE = prog.const("SSL_HS_DONE")
+    if lst:
+        fn = lst[0]
+        # (a)
+        for (bid, idx, ln, node) in cu.find_sites(fn, lambda m: m.get("k") == "call" and m.get("fn") == "tls13ParseHandshakeMessage"):
+            n += 1
+
+            def nonneg_edge(b, k):
+                t = b.get("term")
+                if t is None or "c" not in t or len(b["succ"]) != 2:
+                    return False
+                return any(txt == "(rc < 0)" and not tr for (txt, tr, nd) in cu._cond_atoms(t["c"], k == 0))
+            esc = cu.escapes(fn, (bid, idx), lambda x: ("(rc > %d)" % FULL) in cu.ftext(x) or cu.ftext(x).startswith("(ssl->err = "),
+                             exempt_edge=nonneg_edge, target_expr=lambda x: cu.mentions_call(x, {"sslEncodeResponse"}))
+            f_ = None
+            if esc is not None:
+                f_ = Finding(PROP, rid, fn.name, "parser failure can be taken for `send the next flight`",
+                             "%s:%s matrixSslDecodeTls13(): from a negative result of tls13ParseHandshakeMessage() the handshake response encoder "
+                             "is reachable (via lines %s) without an alert having been stored and without the test rc > SSL_FULL: a parser exit "
+                             "that returns a failure code without choosing an alert (truncated ServerHello) makes matrixSslReceivedData report "
+                             "REQUEST_SEND with nothing to send, and the handshake goes on" % (fn.relfile, ln, [p_[1] for p_ in esc[-6:]]),
+                             file=fn.relfile, line=ln)
+            res.instance(rid, "matrixSslDecodeTls13:%s negative parse result never reaches the flight encoder unexamined" % ln, esc is None, finding=f_)
+        # (b)
+        gf = cu.guard_facts(fn)
+        for b, ln, c in fn.calls():
+            if c.get("fn") == "tls13ParseChangeCipherSpec":
+                n += 1
+                ok = any((txt == "(ssl->hsState == %d)" % DONE and not tr) or (txt == "(ssl->hsState != %d)" % DONE and tr) for (txt, tr) in gf.get(b["id"], ()))
+                f_ = None
+                if not ok:
+                    f_ = Finding(PROP, rid, fn.name, "change_cipher_spec ignored on an established connection",
+                                 "%s:%s matrixSslDecodeTls13(): the change_cipher_spec record is parsed and ignored without the fact hsState != DONE: "
+                                 "RFC 8446 5. allows that only during the handshake; afterwards the illegal record must end the session with "
+                                 "unexpected_message" % (fn.relfile, ln), file=fn.relfile, line=ln)
+                res.instance(rid, "matrixSslDecodeTls13:%s change_cipher_spec ignored only during the handshake" % ln, ok, finding=f_)
+    # (c)
+    lst = prog.by_name.get("matrixSslReceivedData")
+    if lst:
+        fn = lst[0]
+        ERR = prog.const("SSL_FLAGS_ERROR")
+        PF = prog.const("PS_PROTOCOL_FAIL")
+
+        def sets_err(x):
+            return any(m.get("k") == "bin" and m["op"] == "|=" and cu.ftext(strip(m["l"]) or {}) == "ssl->flags" and
+                       (strip(m["r"]) or {}).get("k") == "int" and strip(m["r"])["v"] & ERR for m in walk(x))
+
+        def pf_ret(x):
+            e = strip(x.get("e")) if x.get("k") == "ret" and x.get("e") is not None else None
+            while e is not None and e.get("k") == "cast":
+                e = strip(e["e"])
+            if e is None:
+                return False
+            if e.get("k") == "int":
+                return e["v"] == PF
+            return e.get("k") == "un" and e.get("op") == "-" and (strip(e["e"]) or {}).get("v") == -PF
+        for (bid, idx, ln, node) in cu.find_sites(fn, lambda m: m.get("k") == "call" and m.get("fn") == "matrixSslDecode"):
+            n += 1
+            esc = cu.escapes(fn, (bid, idx), sets_err, is_target=pf_ret)
+            f_ = None
+            if esc is not None:
+                f_ = Finding(PROP, rid, fn.name, "ReceivedData gives up without flagging the session",
+                             "%s:%s matrixSslReceivedData(): `return PS_PROTOCOL_FAIL` at line %s is reachable (via lines %s) without ssl->flags |= "
+                             "SSL_FLAGS_ERROR: the call reports failure, nothing was sent, and the session still encrypts application data" % (
+                                 fn.relfile, ln, esc[-1][1], [p_[1] for p_ in esc[-6:]]), file=fn.relfile, line=esc[-1][1])
+            res.instance(rid, "matrixSslReceivedData:%s every PS_PROTOCOL_FAIL exit behind the decoder is flagged" % ln, esc is None, finding=f_)
+    # (d)
+    lst = prog.by_name.get("tls13EncodeAlert")
+    if lst:
+        fn = lst[0]
+        for b in fn.blocks:
+            for i, ln, x in cu.block_exprs(b):
+                for m in walk(x):
+                    if m.get("k") == "bin" and m["op"] == "=" and cu.ftext(strip(m["l"]) or {}).replace("(", "").replace(")", "") == "*requiredLen":
+                        n += 1
+                        rt = cu.ftext(strip(m["r"]))
+                        ok = "tls13BlockSize" in rt and "tls13PadLen" in rt
+                        f_ = None
+                        if not ok:
+                            f_ = Finding(PROP, rid, fn.name, "required size of a padded alert ignores the padding",
+                                         "%s:%s tls13EncodeAlert(): *requiredLen = %s does not account for tls13BlockSize / tls13PadLen, although the "
+                                         "alert record is padded like any other: with record padding configured the caller sees `required <= size`, "
+                                         "gives up, and the fatal alert (bad_record_mac) is never sent" % (fn.relfile, ln, rt[:60]), file=fn.relfile, line=ln)
+                        res.instance(rid, "tls13EncodeAlert:%s required size covers the configured padding" % ln, ok, finding=f_)
+    res.floor(rid, 4)
